@@ -75,6 +75,7 @@ func checkC06(c *Ctx) {
 	for _, l := range gs {
 		s := l.S.String()
 		switch {
+		case l.Derived:
 		case strings.Contains(s, m.path(m.Ctx)) || strings.Contains(s, "/ctx"):
 		case strings.Contains(s, "watcherRunning") || (strings.Contains(s, "(*sync/atomic.Bool).Load(&"+m.ImplName+".") && !m.isClaimLoadSym(l.S)):
 		case strings.Contains(s, m.path(m.State)):
@@ -203,7 +204,7 @@ func checkC06(c *Ctx) {
 				if get, ok := m.isKVCall(valueOf(x), "Get"); ok {
 					var foreign []string
 					for _, l := range m.GuardsAt(get) {
-						if !m.isClaimLoadSym(l.S) {
+						if !m.isClaimLoadSym(l.S) && !l.Derived {
 							foreign = append(foreign, l.String())
 						}
 					}
